@@ -9,7 +9,9 @@ import (
 	"crypto/rsa"
 	"encoding/binary"
 	"encoding/json"
+	"errors"
 	"fmt"
+	"io"
 	"runtime/debug"
 	"sort"
 	"strconv"
@@ -43,6 +45,7 @@ type Scenario struct {
 	Resign     bool       `json:"resign,omitempty"`      // the signer uses its SIG record a second time (a template kept between messages); the second output is what travels
 	Poison     bool       `json:"poison,omitempty"`      // between packing the message and signing it, some other compressed message fails to pack half way (a name that is not fully qualified)
 	NearLimit  int        `json:"near_limit,omitempty"`  // > 0: the padding is adjusted until message + SIG record is this many octets short of 65535 (1 = fits exactly)
+	Flaky      int        `json:"flaky,omitempty"`       // the key is a device that fails its first n requests (a token that lost its session, a throttled KMS) and works from then on
 	ThirdParty int        `json:"third_party,omitempty"` // the message that travels is signed by an independent implementation (own digest construction, standard library crypto): 1 ECDSA with the smaller s, 2 with the larger s, 3 as it comes
 	Msg        gen.Recipe `json:"msg"`
 	Key        int        `json:"key"`
@@ -105,6 +108,9 @@ func Gen(seed uint64, tier string) any {
 		sc.ThirdParty = 1 + r.IntN(3)
 	}
 	sc.Leftovers = core.Chance(r, 15)
+	if core.Chance(r, 12) {
+		sc.Flaky = core.Pick(r, 1, 1, 2, 5)
+	}
 	sc.EpochS = core.Pick(r, 0, 1, 86400*365, 86400*365*20)
 	sc.InceptOff = core.Pick(r, 0, -300, 300, -1, 1, -86400)
 	sc.ValidFor = core.Pick(r, 600, 600, 2, 1, 0, 86400*30, -1, -300) // negative: expiration before inception, nothing is ever inside
@@ -218,6 +224,11 @@ func Shrink(x any) []any {
 	if sc.Leftovers {
 		n := cp()
 		n.Leftovers = false
+		out = append(out, n)
+	}
+	if sc.Flaky > 0 {
+		n := cp()
+		n.Flaky--
 		out = append(out, n)
 	}
 	if sc.InceptOff != 0 {
@@ -383,8 +394,28 @@ func runIn(sc *Scenario, res *core.Result, verbose bool) {
 	}
 
 	// --- Q1: signing succeeds, output = packed message || one SIG, ARCOUNT+1
-	signed, err := sig.Sign(kp.priv, m)
+	var signer crypto.Signer = kp.priv
+	if sc.Flaky > 0 {
+		signer = &flakySigner{Signer: kp.priv, failures: sc.Flaky}
+	}
+	signed, err := sig.Sign(signer, m)
 	res.Bump("oracle.Q1_sign")
+	if fs, ok := signer.(*flakySigner); ok && fs.failed > 0 {
+		// the key refused at least once during that call. Sign may report that or may have asked again,
+		// but what it returns without an error must be judged like any other output; if it gave up,
+		// the application signs again now that the device answers
+		res.Bump("fault.signing_key_failed_transiently")
+		if err != nil {
+			if after, aerr := m.Pack(); aerr != nil || string(after) != string(packed) {
+				res.Fail("Q1", "sign-changed-message", "after a SIG.Sign that failed because the key did (%v) the caller's message packs differently: Sign altered the message it was given", err)
+				return
+			}
+			logf("sign failed with the key: %v", err)
+			signed, err = sig.Sign(kp.priv, m)
+		} else {
+			res.Bump("cover.sign_succeeded_after_key_failure")
+		}
+	}
 	// signing, successful or not, leaves the caller's message as it was
 	if after, aerr := m.Pack(); aerr != nil || string(after) != string(packed) {
 		res.Fail("Q1", "sign-changed-message", "after SIG.Sign (err=%v) the caller's message packs to %d octets, before it was %d: Sign altered the message it was given", err, len(after), len(packed))
@@ -861,6 +892,20 @@ func runParallel(sc *Scenario, res *core.Result, verbose bool) {
 	}
 	res.Nontrivial = true
 	res.Class = "parallel/n=" + strconv.Itoa(sc.Parallel) + "/" + dns.AlgorithmToString[keys[sc.Key%len(keys)].key.Algorithm]
+}
+
+// flakySigner is a key held by a device that refuses its first requests and serves the later ones.
+type flakySigner struct {
+	crypto.Signer
+	failures, failed int
+}
+
+func (f *flakySigner) Sign(rand io.Reader, digest []byte, opts crypto.SignerOpts) ([]byte, error) {
+	if f.failed < f.failures {
+		f.failed++
+		return nil, errors.New("signing device: session lost, try again")
+	}
+	return f.Signer.Sign(rand, digest, opts)
 }
 
 func firstLine(s string) string {
